@@ -53,7 +53,7 @@ CHECKS = {
         "design_ref": "DESIGN.md §5 C03",
     },
     "C04": {
-        "level": "model_checking", "shards": 16, "deadline_quick": 110, "deadline_thorough": 1800,
+        "level": "model_checking", "shards": 16, "deadline_quick": 150, "deadline_thorough": 1800,
         "engine": "E-WORLD",
         "technique": "explicit-state model checking of the implementation: one BFS by replay per validator configuration (the product of placements, modes and verdicts), asynchronous validators gated so that every completion order is a history",
         "rule": WORLD_RULE + "; scenarios = every vector of up to k validators (default/topic x inline/asynchronous x {Accept, Reject, Ignore, out-of-range}) plus timeout shapes",
@@ -76,7 +76,7 @@ CHECKS = {
         "design_ref": "DESIGN.md §5 C05",
     },
     "C06": {
-        "level": "model_checking", "shards": 5, "deadline_quick": 100, "deadline_thorough": 1500,
+        "level": "model_checking", "shards": 5, "deadline_quick": 150, "deadline_thorough": 1500,
         "engine": "E-WORLD",
         "technique": "explicit-state model checking of the implementation: BFS by replay around one real node (three routers) with scripted peers of five protocol versions; recipient-set oracle on the wire log",
         "rule": WORLD_RULE,
@@ -162,7 +162,7 @@ CHECKS = {
         "design_ref": "DESIGN.md §5 C12",
     },
     "C13": {
-        "level": "model_checking", "shards": 5, "deadline_quick": 110, "deadline_thorough": 1800,
+        "level": "model_checking", "shards": 5, "deadline_quick": 150, "deadline_thorough": 1800,
         "engine": "E-WORLD",
         "technique": "explicit-state model checking of the implementation: BFS by replay over the life of one remote peer, with a retention suffix and an implementation-agnostic reflection scan of the whole object graph at every explored state",
         "rule": WORLD_RULE + "; at every state the leaf event 'retire' (close everything of the peer, advance 12.5 virtual minutes with heartbeats, scan) is applied",
